@@ -49,6 +49,7 @@ func init() {
 			ruleChunkHeaderCodec(c, r, t, "")
 			ruleStartChunkEffects(c, r, t, "")
 			ruleDecoderReps(c, r, "")
+			ruleRingModulus(c, r, "", "dec")
 			ruleDictCapDecode(c, r, "")
 			ruleLzmaFilterCodec(c, r, "")
 			ruleCheckIDs(c, r, "")
@@ -76,6 +77,8 @@ func init() {
 			rulePropsCode(c, r, "")
 			ruleReaderWindow(c, r, "")
 			ruleMatcherGuard(c, r, "", false)
+			ruleRingModulus(c, r, "", "enc")
+			ruleRingModulus(c, r, "dec:", "dec")
 			ruleIO(c, r, c.Cone(nonNilFns(c.Func("lzma", "NewWriter"), c.Func("lzma", "WriterConfig.NewWriter"), c.Func("lzma", "Writer.Write"), c.Func("lzma", "Writer.Close"))...), "", true)
 		},
 	})
@@ -94,6 +97,7 @@ func init() {
 			ruleCodecGeometry(c, r, "")
 			ruleSpecConstants(c, r, "")
 			ruleDecoderReps(c, r, "")
+			ruleRingModulus(c, r, "", "dec")
 			ruleLzmaHeaderCodec(c, r, "")
 			rulePropsCode(c, r, "")
 			ruleReaderWindow(c, r, "")
